@@ -808,6 +808,7 @@ func runC06(c *Ctx) {
 	checkFilexferRequestDispatch(c, "R12")
 	checkPacketStartsAtZero(c, "R13")
 	checkDecodedFlagsReachTheLadder(c, "R14")
+	checkAdvertisedDataMatchesOpenSSH(c, "R15")
 
 	// ---------- R8 count guards refuse only what cannot fit ----------
 	checkCountGuards(c, "R8")
